@@ -69,6 +69,14 @@ pub fn all_props() -> Vec<Box<dyn framework::Prop>> {
             parts: vec![Box::new(h), Box::new(props_th::c01_th())],
         }));
     }
+    // C15 = close / reopen histories (Engine V) + close() racing with other client threads (Engine TH)
+    if let Some(pos) = hyb.iter().position(|p| p.id == "C15") {
+        let h = hyb.remove(pos);
+        v.push(Box::new(framework::Composite {
+            id: "C15",
+            parts: vec![Box::new(h), Box::new(props_th::c15_th())],
+        }));
+    }
     for p in hyb {
         v.push(Box::new(p));
     }
@@ -76,7 +84,12 @@ pub fn all_props() -> Vec<Box<dyn framework::Prop>> {
     v.push(Box::new(props_c07::C07Prop));
     v.push(Box::new(props_c04::C04Prop));
     v.push(Box::new(props_c03::C03Prop));
-    v.push(Box::new(props_c09::C09Prop));
+    // C09 = task-poll orderings with device-write monitors (Engine V) + flusher / reclaimer / loads on two
+    // runtime-worker threads racing with client threads (Engine TH)
+    v.push(Box::new(framework::Composite {
+        id: "C09",
+        parts: vec![Box::new(props_c09::C09Prop), Box::new(props_th::c09_th())],
+    }));
     // C16 = re-entrant callbacks (Engine S + lock monitor) + deadlock freedom under threads (Engine T)
     v.push(Box::new(framework::Composite {
         id: "C16",
